@@ -93,7 +93,8 @@ namespace cgi {
 		void on_headers_chunk_read(booster::system::error_code const &e,size_t ,handler const &h)
 		{
 			if(e) { h(e); return; }
-			if(buffer_.back()!=',') {
+			// the header block has to end with the NUL of its last value: the loop below relies on it
+			if(buffer_.back()!=',' || (buffer_.size() > sep_ + 2 && buffer_[buffer_.size()-2]!=0)) {
 				buffer_.back() = 0;
 				// make sure it is NUL terminated
 				h(booster::system::error_code(errc::protocol_violation,cppcms_category));
